@@ -99,8 +99,27 @@ pub async fn restore(
         monitor.clone(),
     );
     let mut deferrals = Vec::new();
+    // Symlinks restored so far. No later entry may be created below one of them: that
+    // would write through the link, to wherever it points. A well-formed index never
+    // holds entries below a symlink, but a stitched view of an interrupted backup can
+    // (a directory replaced by a link, with the old contents taken from the older band),
+    // and so can a damaged index.
+    let mut restored_symlinks: Vec<Apath> = Vec::new();
     while let Some(entry) = stitch.next().await {
         task.set_name(format!("Restore {}", entry.apath));
+        if let Some(link) = restored_symlinks
+            .iter()
+            .find(|link| link.is_prefix_of(entry.apath()))
+        {
+            monitor.error(Error::InvalidMetadata {
+                details: format!(
+                    "Not restoring {:?} because {:?} was restored as a symlink",
+                    entry.apath(),
+                    link
+                ),
+            });
+            continue;
+        }
         let path = destination.join(&entry.apath[1..]);
         match entry.kind() {
             Kind::Dir => {
@@ -137,6 +156,7 @@ pub async fn restore(
                     monitor.error(err);
                     continue;
                 }
+                restored_symlinks.push(entry.apath().clone());
             }
             Kind::Unknown => {
                 monitor.error(Error::InvalidMetadata {
